@@ -90,6 +90,7 @@ var (
 	evmConfig   = vm.Config{EVMGasLimit: EVMGasLimit}
 
 	errQuitExecute = fmt.Errorf("quit executing block")
+	errEmptyTx     = fmt.Errorf("empty transaction")
 )
 
 type EVMApp struct {
@@ -299,6 +300,10 @@ func (app *EVMApp) genExecFun(block *gtypes.Block, res *gtypes.ExecuteResult) Be
 		tempKeyValueUpdateHistories := make([]*gtypes.KeyValueHistory, 0)
 
 		execFunc := func(txIndex int, raw []byte, tx *etypes.Transaction) error {
+			if tx == nil {
+				// zero-length transaction bytes are never decoded (txQueue) and reach the executor as nil
+				return errEmptyTx
+			}
 			txType := common.Bytes2Hex(tx.Data())
 			if strings.HasPrefix(txType, common.Bytes2Hex(rtypes.KVTxType)) {
 				kv, err := app.executeKVTx(state, tx)
